@@ -56,7 +56,14 @@ def c14Run : Op := fun j => do
         let r := if old then runObjOld Prod.mk how o w else runObj Prod.mk how o w
         o := r.1
         w := r.2.1
-        out := out.push (Json.mkObj [("evs", Json.arr (r.2.2.map encEv).toArray)])
+        -- what the pool workers do to THEIR copies of the global generator: one list per batch
+        let workerEvs : List (List Ev) := match how with
+          | .async chunks => if o.nrep = 1 then [] else chunks.map fun ch => (runSeeds (Row := SymRow) Prod.mk ch w).2.2
+          | _ => []
+        o := r.1
+        w := r.2.1
+        out := out.push (Json.mkObj [("evs", Json.arr (r.2.2.map encEv).toArray),
+          ("worker_evs", Json.arr (workerEvs.map fun l => Json.arr (l.map encEv).toArray).toArray)])
       | "setNrep" =>
         match rest with
         | [n] =>
